@@ -58,6 +58,11 @@ Definition cast_ty (t a : ty) : option ty := if castable t && castable a then So
 Definition assignable (t s : ty) : bool :=
   ty_eqb t s || match t, s with TLong, TInt => true | _, _ => false end.
 
+(* what an element assignment a[i] = e accepts: the declared element type, int into long[], and a bit into int[]
+   (the documentation only says "checks the value type"; this is what the analyser accepts) *)
+Definition aset_ok (elt s : ty) : bool :=
+  assignable elt s || match elt, s with TInt, TBit => true | _, _ => false end.
+
 (* element conversions the documentation lists for array literals *)
 Definition elem_ok (elt s : ty) : bool :=
   match elt, s with
@@ -191,7 +196,7 @@ Section Check.
     | SArrAssign x i a =>
         match t_lookup x G, type_expr G i, type_expr G a with
         | Some (TArr elt, false), Some ti, Some ta =>
-            if integral ti && assignable elt ta then Some G else None
+            if integral ti && aset_ok elt ta then Some G else None
         | _, _, _ => None
         end
     | SIf c a b =>
